@@ -67,8 +67,10 @@ def _worker(job):
     from harness import colang2
     sm = colang2.sm
     colang2.install_scripted_random()
+    clock = colang2.install_fake_clock()
     out = []
     for (fi, f, variant, maxlen, budget, seed) in job["items"]:
+        clock.offset = 0.0
         src = program(f, variant)
         try:
             base = colang2.start_main(colang2.compile_program(src))
@@ -86,10 +88,12 @@ def _worker(job):
         total = sum(len(alphabet) ** n for n in range(1, maxlen + 1))
         keep = min(1.0, float(budget) / total)
 
-        def dfs(st, prefix, first, pick):
+        def dfs(st, prefix, first, pick, aged=False, depth_cap=None):
             if err[0]:
                 return
             for a in alphabet:
+                if depth_cap is not None and len(prefix) >= depth_cap:
+                    return
                 # sample subtrees when the full tree exceeds the budget (never at depth 1-2)
                 if len(prefix) >= 2 and keep < 1.0 and rnd.random() > keep ** (1.0 / max(1, maxlen - 2)):
                     continue
@@ -97,18 +101,24 @@ def _worker(job):
                 f2 = first
                 try:
                     colang2._scripted.picks = [pick] * 8
+                    if aged:
+                        clock.offset += 10.0     # more than the clean-up age elapses before every event
                     st2 = sm.run_to_completion(st2, {"type": "Ev%s" % a})
                 except Exception as ex:
                     err[0] = "events %s: %s: %s" % ("".join(prefix + [a]), type(ex).__name__, ex)
                     return
                 if any(e.get("type") == "Done" for e in st2.outgoing_events):
                     f2 = len(prefix) + 1 if first == 0 else -(len(prefix) + 1)
-                obs.append({"seq": prefix + [a], "first": f2, "pick": pick})
+                obs.append({"seq": prefix + [a], "first": f2, "pick": pick, "aged": aged})
                 if len(prefix) + 1 < maxlen:
-                    dfs(st2, prefix + [a], f2, pick)
+                    dfs(st2, prefix + [a], f2, pick, aged, depth_cap)
 
         for pick in ([0, 1] if has_or else [0]):
             dfs(base, [], 0, pick)
+        if variant in ("await", "when") and not err[0]:
+            # the same statement with idle time between the events (finished flows are discarded by the clean-up)
+            dfs(base, [], 0, 0, aged=True, depth_cap=3)
+        clock.offset = 0.0
         out.append((fi, variant, obs if not err[0] else None, err[0], src))
     return out
 
@@ -176,10 +186,11 @@ def run(ctx):
             o = obs[i - 1]
             exp = v["exp"]
             e = exp.get(str(i)) if isinstance(exp, dict) else None
-            ctx.violation("first-step-differs", "%s %s: events %s (tie-break pick %d): marker at step %s, formula first holds at step %s (+%d more sequences)" % (
-                variant, strip(render(chosen[fi], str)), "".join(o["seq"]), o["pick"], o["first"], e, len(v["bad"]) - 1),
+            ctx.violation("first-step-differs", "%s %s: events %s (tie-break pick %d%s): marker at step %s, formula first holds at step %s (+%d more sequences)" % (
+                variant, strip(render(chosen[fi], str)), "".join(o["seq"]), o["pick"], ", idle time > clean-up age between events" if o.get("aged") else "",
+                o["first"], e, len(v["bad"]) - 1),
                 {"formula": chosen[fi], "variant": variant, "seq": o["seq"], "pick": o["pick"], "observed": o["first"],
-                 "expected": e, "source": src, "sig": {"variant": variant, "repeated_event": len(set(o["seq"])) < len(o["seq"])}})
+                 "expected": e, "source": src, "sig": {"variant": variant, "repeated_event": len(set(o["seq"])) < len(o["seq"]), "aged": bool(o.get("aged"))}})
     samples = [{"formula": strip(render(chosen[fi], str)), "variant": variant, "seq": "".join(obs[len(obs) // 2]["seq"]),
                 "first": obs[len(obs) // 2]["first"]} for (fi, variant, obs, src) in index[:: max(1, len(index) // 4)]][:4]
     return {"level": LEVEL, "coverage": {
